@@ -22,7 +22,7 @@ type unsupportedErr struct{ msg string }
 func unsupported(msg string) unsupportedErr { return unsupportedErr{msg} }
 
 type abortPath struct{ why string } // infeasible assume etc: path silently dropped
-type prunedPath struct{}             // state already explored (state hashing)
+type prunedPath struct{}            // state already explored (state hashing)
 type fuelErr struct{ msg string }
 type threadKill struct{}
 type exitPath struct{} // harness asked to end the path (e.g. after a violation)
@@ -797,6 +797,9 @@ func (st *State) index(idx *Term, n int, signed bool) int {
 			}
 		}
 		if i < 0 || i >= int64(n) {
+			if os.Getenv("VERIF_PANIC_TRACE") != "" && st.cur != nil {
+				fmt.Fprintln(os.Stderr, "index out of range in", st.cur.name, st.stackOf(st.cur))
+			}
 			panic(goPanic{mkRuntimeError(fmt.Sprintf("index out of range [%d] with length %d", i, n))})
 		}
 		return int(i)
